@@ -203,7 +203,12 @@ def execute(prog):
                         elif entry == "sign_digest":
                             digest = core.unhx(it["digest"])
                             allow = it["allow_truncate"]
-                            sig = sk.sign_digest(digest, sigencode=se,
+                            from .c12 import _as_buffer
+                            dflav = ["bytes", "bytes", "bytearray", "mv",
+                                     "arrayB", "arrayH", "arrayI", "mvH"][
+                                         idx % 8]
+                            sig = sk.sign_digest(_as_buffer(digest, dflav),
+                                                 sigencode=se,
                                                  allow_truncate=allow, **kw)
                         elif entry == "sign_digest_deterministic":
                             digest = core.unhx(it["digest"])
